@@ -35,7 +35,19 @@ impl Processor {
     }
 
     pub fn load(&self, main: &Locator) -> anyhow::Result<ModuleSet> {
-        let mods = oal_compiler::module::load(&mut self.loader(), main)?;
+        let mods = oal_compiler::module::load(&mut self.loader(), main).map_err(|err| {
+            // Errors raised by the module loader itself (e.g. an import that cannot be resolved)
+            // carry the span of the import statement but have not been reported yet.
+            match err.downcast::<oal_compiler::errors::Error>() {
+                Ok(err) => match err.span() {
+                    Some(span) if self.report(span.clone(), &err).is_ok() => {
+                        anyhow!("loading failed")
+                    }
+                    _ => err.into(),
+                },
+                Err(err) => err,
+            }
+        })?;
         Ok(mods)
     }
 
